@@ -141,6 +141,11 @@ pub fn corpus_case(seed: u64, case: u64) -> (OptSpec, Vec<Vec<Vec<u8>>>) {
     if rng.chance(1, 2) {
         spec.descr = Some(format!("{} D0", rng.pick(HELPS)));
     }
+    // `cargo asm ..`: the name of the cargo subcommand in front is skipped when it is there
+    let cargo = rng.chance(1, 8);
+    if cargo {
+        spec.cargo = Some("asm".to_string());
+    }
     let alpha = alphabet_lite(&spec);
     let mut vectors: Vec<Vec<Vec<u8>>> = Vec::new();
     for vi in 0..12 {
@@ -174,6 +179,15 @@ pub fn corpus_case(seed: u64, case: u64) -> (OptSpec, Vec<Vec<Vec<u8>>>) {
             }
             5 => v.insert(rng.below(v.len() + 1), b"-qwx".to_vec()),
             _ => {}
+        }
+        if cargo {
+            // the command word in front, behind the first item, or at the end
+            match rng.below(4) {
+                0 => v.insert(0, b"asm".to_vec()),
+                1 => v.insert(1.min(v.len()), b"asm".to_vec()),
+                2 => v.push(b"asm".to_vec()),
+                _ => {}
+            }
         }
         // the completion marker is outside the quantifier
         v.retain(|a| !a.starts_with(b"--bpaf-complete"));
